@@ -187,9 +187,7 @@ func RunC05(tier string) int {
 		if nontrivial {
 			run.Nontrivial(fmt.Sprintf("%s|%v|ff=%v", s.Shape(), fl, failFast))
 		}
-		if i < 2 {
-			run.Sample(map[string]any{"case": i, "shape": s.Shape(), "failing": fl, "fail_fast": failFast, "history": env.Log})
-		}
+		run.Sample(map[string]any{"case": i, "shape": s.Shape(), "failing": fl, "fail_fast": failFast, "history": env.Log})
 	})
 	run.Assume("exec.CommandContext refuses to start a command once its context is cancelled, so a command that started after the walk.failfast event is a violation, while one attempted before it may still run")
 	return run.Finish()
